@@ -34,15 +34,18 @@ Bound(ev) ==
   /\ ev.parsed[3] = C!YZ(KindName(ev.kind), ev.par, ev.L)
   /\ ev.parsed[4] = C!XZ(KindName(ev.kind), ev.par, ev.L, ev.M)
 
-WhyOut(r) ==
+\* as in C04: when the exact Rlat of the report is within 1e-9 degree of an NL transition latitude
+\* (only 87.0 deg even), a float decoder may legitimately take the other NL: no distance required
+WhyOut(r, tight) ==
   CASE r.o = "none" -> ""
-    [] r.o = "some" -> IF r.err <= TolMM THEN "" ELSE "wrong_position"
+    [] r.o = "some" -> IF r.err <= TolMM \/ tight THEN "" ELSE "wrong_position"
     [] r.o = "panic" -> "panic"
     [] OTHER -> "half_position"
+Tight(ev) == C!NearThreshold(KindName(ev.kind), ev.par, ev.L)
 
 WhyRep(ev) ==
   IF ~Bound(ev) THEN "binding"
-  ELSE IF WhyOut(ev.inter) # "" THEN WhyOut(ev.inter)
+  ELSE IF WhyOut(ev.inter, Tight(ev)) # "" THEN WhyOut(ev.inter, Tight(ev))
   ELSE IF ev.iso # ev.inter THEN "interference"
   ELSE IF ev.batch # ev.inter THEN "batch_differs"
   ELSE ""
